@@ -68,12 +68,32 @@ class Session:
         return rng_for(self.seed, self.prop, *parts)
 
     # -- library access (quiet = not recorded as classification events)
+    # properties for which "the object holds something other than the document it was read from" is a violation
+    LOAD_FIDELITY = {'C04': 'carried content', 'C14': 'serialisation', 'C17': 'story text', 'C18': 'source',
+                     'C20': 'exposed IDs and content'}
+
     def load(self, text):
         EV.STATE['quiet'] = EV.STATE.get('quiet', 0) + 1
         try:
-            return self.mt.MosFile.from_string(text)
+            mo = self.mt.MosFile.from_string(text)
         finally:
             EV.STATE['quiet'] -= 1
+        if self.prop in self.LOAD_FIDELITY:
+            # the tree the library holds == an independent parse of the same text (same parser, so any
+            # difference was made by the library: dropped characters, re-decoded text, rewritten nodes)
+            try:
+                from xml.etree import ElementTree as ET
+                from .canon import canon
+                same = canon(ET.fromstring(text)) == canon(mo.xml)
+            except Exception:
+                same = True          # not comparable (should not happen for a document that just loaded)
+            self.hist['load_fidelity_checks'] += 1
+            if not same:
+                self.custom_violation('document-altered-by-loading',
+                                      {'class': type(mo).__name__, 'concerns': self.LOAD_FIDELITY[self.prop]},
+                                      {'type': 'load', 'doc': text if isinstance(text, str) else text.decode('latin-1')},
+                                      msg_kind=type(mo).__name__, status='load')
+        return mo
 
     def add(self, ro, msg, error_on=None):
         """ro + msg on the real library.  Returns (ro', exception|None, warnings).
